@@ -3,11 +3,14 @@ package main
 import (
 	"bufio"
 	"bytes"
+	"crypto/ed25519"
+	"crypto/rsa"
 	"crypto/sha256"
 	"encoding/json"
 	"errors"
 	"fmt"
 	"io"
+	"math/big"
 	"math/rand"
 	"os"
 	"runtime"
@@ -23,6 +26,7 @@ import (
 	"filippo.io/age/zverif/keys"
 	"filippo.io/age/zverif/mon"
 	"filippo.io/age/zverif/refage"
+	"golang.org/x/crypto/ssh"
 )
 
 // job is what the supervisor hands to one workload process (one repetition).
@@ -54,24 +58,27 @@ type failOut struct {
 }
 
 type roundOut struct {
-	Rep        int                `json:"rep"`
-	Round      int                `json:"round"`
-	G          int                `json:"g"`
-	P          int                `json:"p"`
-	Size       int                `json:"size"`
-	Mix        string             `json:"mix"`
-	Ops        int                `json:"ops"`
-	ByTmpl     map[string]int     `json:"by_tmpl"`
-	ByKind     map[string]int     `json:"by_kind"`
-	Obj        map[string]*objOut `json:"obj"`
-	Distinct   []string           `json:"distinct"`
-	Fails      []failOut          `json:"fails"`
-	ErrClasses map[string]int     `json:"err_classes"`
-	IOCalls    int64              `json:"io_calls"`
-	ListChecks int                `json:"list_checks"`
-	SeqOps     int                `json:"seq_ops"`
-	Done       bool               `json:"done,omitempty"`
-	Rounds     int                `json:"rounds,omitempty"`
+	Rep            int                `json:"rep"`
+	Round          int                `json:"round"`
+	G              int                `json:"g"`
+	P              int                `json:"p"`
+	Size           int                `json:"size"`
+	Mix            string             `json:"mix"`
+	Ops            int                `json:"ops"`
+	ByTmpl         map[string]int     `json:"by_tmpl"`
+	ByKind         map[string]int     `json:"by_kind"`
+	Obj            map[string]*objOut `json:"obj"`
+	Distinct       []string           `json:"distinct"`
+	Fails          []failOut          `json:"fails"`
+	ErrClasses     map[string]int     `json:"err_classes"`
+	IOCalls        int64              `json:"io_calls"`
+	Prov           map[string]string  `json:"prov"`
+	BareRSA        bool               `json:"bare_rsa"`
+	BareFirstPairs int                `json:"bare_first_pairs"`
+	ListChecks     int                `json:"list_checks"`
+	SeqOps         int                `json:"seq_ops"`
+	Done           bool               `json:"done,omitempty"`
+	Rounds         int                `json:"rounds,omitempty"`
 }
 
 // ---- the shared values -----------------------------------------------------
@@ -93,6 +100,9 @@ type world struct {
 	xi  *age.X25519Identity
 	ei  *agessh.Ed25519Identity
 	ri  *agessh.RSAIdentity
+
+	prov    map[string]string // constructor variant of each shared value in this round
+	bareRSA bool              // the RSA identity wraps a key without Precomputed values
 
 	idLists  map[string][]age.Identity  // shared slices, passed as ids...
 	recLists map[string][]age.Recipient // shared slices, passed as recs...
@@ -163,27 +173,94 @@ func newWorld(seed int64) *world {
 	for _, p := range []string{"X1", "S1", "E1", "R1"} {
 		w.probes[p] = w.buildFile(p, probePlain, rng)
 	}
-	w.fresh()
+	w.fresh(0)
 	return w
 }
 
 var probePlain = []byte("c20 sequential pass")
 
-// fresh constructs new shared values and new shared lists (same keys).
-func (w *world) fresh() {
+// Provenance of the shared values: every public constructor is driven in the
+// variants a caller can legitimately produce. The variant of each value rotates
+// with the round number (decorrelated from goroutines / payload / mix).
+var (
+	rsaIDProv = []string{"agessh.ParseIdentity(pem)", "agessh.NewRSAIdentity(bare key from components)", "agessh.NewRSAIdentity(key with Precompute, as generated)",
+		"agessh.ParseIdentity(pem)", "agessh.NewRSAIdentity(bare key from components, after Validate)", "agessh.NewRSAIdentity(key with Precompute, as generated)"}
+	edIDProv  = []string{"agessh.ParseIdentity(pem)", "agessh.NewEd25519Identity(ed25519.NewKeyFromSeed)"}
+	rsaRcProv = []string{"agessh.ParseRecipient(line)", "agessh.NewRSARecipient(ssh.NewPublicKey(rebuilt rsa.PublicKey))"}
+	edRcProv  = []string{"agessh.ParseRecipient(line)", "agessh.NewEd25519Recipient(ssh.NewPublicKey(rebuilt ed25519.PublicKey))"}
+)
+
+// bareRSA rebuilds a private key from its numeric components only (as from a
+// JWK or an HSM export): valid, but without the optional Precomputed values.
+func bareRSA(k *rsa.PrivateKey) *rsa.PrivateKey {
+	b := &rsa.PrivateKey{PublicKey: rsa.PublicKey{N: new(big.Int).Set(k.N), E: k.E}, D: new(big.Int).Set(k.D)}
+	for _, p := range k.Primes {
+		b.Primes = append(b.Primes, new(big.Int).Set(p))
+	}
+	return b
+}
+
+func must[T any](v T, err error) T {
+	if err != nil {
+		panic(fmt.Sprintf("c20: constructing a shared value: %v", err))
+	}
+	return v
+}
+
+// fresh constructs new shared values and new shared lists (same keys) for
+// round no.
+func (w *world) fresh(no int) {
+	mixn := no + no/4 + no/16 + no/64
+	w.prov = map[string]string{
+		"RSAIdentity":      rsaIDProv[mixn%len(rsaIDProv)],
+		"Ed25519Identity":  edIDProv[(mixn/2)%len(edIDProv)],
+		"RSARecipient":     rsaRcProv[(mixn/3)%len(rsaRcProv)],
+		"Ed25519Recipient": edRcProv[(mixn/5)%len(edRcProv)],
+		"X25519":           "age.ParseX25519Identity / ParseX25519Recipient / Identity.Recipient()",
+		"scrypt":           "age.NewScryptIdentity / NewScryptRecipient+SetWorkFactor",
+	}
+	w.bareRSA = strings.Contains(w.prov["RSAIdentity"], "bare")
 	w.rec, w.ids = map[string]age.Recipient{}, map[string]age.Identity{}
 	w.xi = w.x1.Identity()
-	w.ei = w.e1.Identity().(*agessh.Ed25519Identity)
-	w.ri = w.r1.Identity().(*agessh.RSAIdentity)
+	if strings.HasPrefix(w.prov["Ed25519Identity"], "agessh.Parse") {
+		w.ei = w.e1.Identity().(*agessh.Ed25519Identity)
+	} else {
+		w.ei = must(agessh.NewEd25519Identity(ed25519.NewKeyFromSeed(append([]byte(nil), w.e1.Seed...))))
+	}
+	switch p := w.prov["RSAIdentity"]; {
+	case strings.HasPrefix(p, "agessh.Parse"):
+		w.ri = w.r1.Identity().(*agessh.RSAIdentity)
+	case strings.Contains(p, "Precompute"):
+		k := bareRSA(w.r1.Priv)
+		k.Precompute()
+		w.ri = must(agessh.NewRSAIdentity(k))
+	case strings.Contains(p, "Validate"):
+		k := bareRSA(w.r1.Priv)
+		if err := k.Validate(); err != nil {
+			panic(err)
+		}
+		w.ri = must(agessh.NewRSAIdentity(k))
+	default:
+		w.ri = must(agessh.NewRSAIdentity(bareRSA(w.r1.Priv)))
+	}
 	w.ids["Xi"], w.ids["Ei"], w.ids["Ri"] = w.xi, w.ei, w.ri
 	w.ids["Si"] = keys.ScryptIdentity(pass1, 0)
 
 	w.rec["Xr"] = w.x1.Recipient()
 	w.rec["Xd"] = w.xi.Recipient()
 	w.rec["Sr"] = keys.ScryptRecipient(pass1, scryptLogN)
-	w.rec["Er"] = w.e1.Recipient()
+	if strings.HasPrefix(w.prov["Ed25519Recipient"], "agessh.Parse") {
+		w.rec["Er"] = w.e1.Recipient()
+	} else {
+		w.rec["Er"] = must(agessh.NewEd25519Recipient(must(ssh.NewPublicKey(ed25519.PublicKey(append([]byte(nil), w.e1.Pub...))))))
+	}
 	w.rec["Ed"] = w.ei.Recipient()
-	w.rec["Rr"] = w.r1.Recipient()
+	if strings.HasPrefix(w.prov["RSARecipient"], "agessh.Parse") {
+		w.rec["Rr"] = w.r1.Recipient()
+	} else {
+		pub := &rsa.PublicKey{N: new(big.Int).Set(w.r1.Priv.N), E: w.r1.Priv.E}
+		w.rec["Rr"] = must(agessh.NewRSARecipient(must(ssh.NewPublicKey(pub))))
+	}
 	w.rec["Rd"] = w.ri.Recipient()
 
 	w.idLists, w.recLists = map[string][]age.Identity{}, map[string][]age.Recipient{}
@@ -327,6 +404,8 @@ func init() {
 			objs: append([]string{l}, all...), file: f})
 	}
 }
+
+var decRi = decPool[3]
 
 func (t *tmpl) keyName() string {
 	if t.key != "" {
@@ -556,7 +635,8 @@ func runRound(w *world, jb *job, no, G, P, size int, mix string) *roundOut {
 		ByTmpl: map[string]int{}, ByKind: map[string]int{}, Obj: map[string]*objOut{}, ErrClasses: map[string]int{}}
 	label := fmt.Sprintf("c20/rep%d/round%d", jb.Rep, no)
 	rrng := mon.NewRNG(jb.Seed, label)
-	w.fresh()
+	w.fresh(no + 7*jb.Rep)
+	ro.Prov = w.prov
 	pool := poolFor(mix)
 	rrng.Shuffle(len(pool), func(i, j int) { pool[i], pool[j] = pool[j], pool[i] })
 	per := opsPerG(G)
@@ -584,6 +664,17 @@ func runRound(w *world, jb *job, no, G, P, size int, mix string) *roundOut {
 			all = append(all, op)
 		}
 	}
+	// Rounds whose RSA identity wraps a bare key: the first call of up to six
+	// goroutines, behind the barrier, decrypts an ssh-rsa file, so that the
+	// first private-key operations on the fresh key overlap.
+	var firstCalls []*opInst
+	if w.bareRSA && mix != "enc" {
+		for g := 0; g < G && g < 6; g++ {
+			plans[g][0].t = decRi
+			firstCalls = append(firstCalls, plans[g][0])
+		}
+	}
+
 	// inputs of the decrypting operations, made by the reference implementation
 	// (one file per goroutine and key kind, kept for the block)
 	type need struct {
@@ -689,6 +780,17 @@ func runRound(w *world, jb *job, no, G, P, size int, mix string) *roundOut {
 		}
 	}
 	analyse(ro, all)
+	if len(firstCalls) > 0 {
+		ro.BareRSA = true
+		for i, a := range firstCalls {
+			for _, b := range firstCalls[:i] {
+				// both inside Decrypt() (header + Unwrap) at the same time
+				if (a.call < b.call && b.call <= a.head) || (b.call < a.call && a.call <= b.head) {
+					ro.BareFirstPairs++
+				}
+			}
+		}
+	}
 	if os.Getenv("VERIF_C20_TIMING") != "" { // diagnostics only; no oracle looks at a clock
 		fmt.Fprintf(os.Stderr, "timing rep=%d G=%d P=%d size=%d mix=%s ops=%d setup=%v run=%v verify=%v\n", jb.Rep, G, P, size, mix, len(all), t1.Sub(t0), t2.Sub(t1), time.Since(t2))
 	}
